@@ -5,3 +5,4 @@ import Tetl.C06.Model.Sort
 import Tetl.C06.Model.Num
 import Tetl.C06.Model.Out
 import Tetl.C06.Model.Needle
+import Tetl.C06.Model.SinglePass
